@@ -41,7 +41,7 @@ CHECKS = {
         engine="noise-sim", design_ref="DESIGN.md 4.6",
         technique="deterministic simulation with the simulator owning the random source: a recording numpy Generator behind the rng= seam logs every draw, the log is replayed into an independent reference SDE integrator; tracker schedules that cut the run into segments are the schedule dimension",
         text="Real eq.solve runs (euler, milstein, implicit; numpy backend, numba backend in python mode) on grids with non-uniform cell volumes, all field ranks and collections, scalar/per-component/per-field/multiplicative variances and all noise interpretations. Checked: exactly one standard_normal(shape) per step and nothing else drawn, draws are the successive draws of the seeded bit generator, every per-step state equals the documented formula to 1e-12, bit-identical reproducibility also under different tracker sets, zero variance = deterministic run with zero draws.",
-        note="Reference integrator is ~20 lines of numpy written from the property text. Implicit solver checked for linear rates (closed-form fixed point). numba path: formula only (the property claims no bit reproducibility there). Variances <= 1e-14 are not generated (see known_findings / DESIGN).",
+        note="Reference integrator is ~20 lines of numpy written from the property text. Implicit solver checked for linear rates (closed-form fixed point). numba path: formula only (the property claims no bit reproducibility there).",
     ),
     "C20": dict(
         engine="storage-sim", design_ref="DESIGN.md 4.9",
